@@ -1,4 +1,6 @@
+import FluentProofs.ConstTieSyntax
 import FluentProofs.SerializerEntries
+import FluentProofs.SerializerLineSplit
 /-!
 # C04 — serializer round trip
 
@@ -12,15 +14,17 @@ all inputs (structural induction over the mutual AST types):
   `star_only_replaces_indentation` — what the `TextWriter` primitives do to the buffer;
 * T1c `writeLiteral_join_iff`, `serialize_congr`, `serialize_congr_lineSplit`,
   `fixpoint_of_roundtrip_lineSplit` — the exact congruence under joining text elements;
+* `parse_lineSplit`, `fixpoint_of_roundtrip` — the parser produces line-split trees (for every
+  source), hence **`C04_roundtrip_statement → C04_fixpoint_statement`**;
 * T2 `inline_serialize`, `inline_roundtrip`, `inline_roundtrip_source` — every valid inline
   expression (all seven forms, call arguments, nested placeables) is parsed back;
 * T2 `pattern_roundtrip_singleline`, `roundtrip_singleline_partial` — the full round trip and fixed
   point (through `parse`, with the fuel `parse` passes) for resources of messages/terms with
   single-line values.
 
-Missing for the full statements (T3): multi-line patterns (`get_pattern`'s indentation stripping
-against `serialize_pattern`'s indentation), selects/variants, attributes, comments, Junk, and "the
-parser produces line-split text elements / trees of the shape the theorems assume".
+Missing for the full statements (T3): `C04_roundtrip_statement` for multi-line patterns
+(`get_pattern`'s indentation stripping against `serialize_pattern`'s indentation), selects/variants,
+attributes, comments and Junk.  `C04_fixpoint_statement` needs nothing else (`fixpoint_of_roundtrip`).
 -/
 namespace FluentProofs.C04
 open FluentModel FluentModel.Syntax FluentModel.Syntax.Ser FluentProofs.Parser FluentProofs.Ser
@@ -33,9 +37,10 @@ succeeds with a tree `t'`, and `t'` equals `t` under `norm` (adjacent text eleme
 recursively, whitespace-only comment lines equal to empty ones, Junk dropped when `¬withJunk`).
 
 Not proved.  Proved parts: `serialize_total` (the `∃ out`), `inline_roundtrip` (the inline
-expression layer).  Missing: the pattern layer (`get_pattern`'s indentation stripping against
-`serialize_pattern`'s indentation), select expressions, attributes, comments, Junk and the entry
-loop. -/
+expression layer), `roundtrip_singleline_partial` (the whole chain through `parse` for trees of
+messages/terms with single-line values).  Missing: multi-line patterns (`get_pattern`'s indentation
+stripping against `serialize_pattern`'s indentation), select expressions, attributes, comments and
+Junk. -/
 def C04_roundtrip_statement : Prop :=
   ∀ (str : String) (withJunk : Bool) (t : Resource Span) (errs : List PErr),
     parse str.toUTF8.data = .done (t, errs) →
@@ -46,8 +51,8 @@ def C04_roundtrip_statement : Prop :=
 /-- **C04 fixed point (full statement, open).**  Serialising the re-parsed tree reproduces the text
 byte for byte.
 
-Not proved.  `fixpoint_of_roundtrip_lineSplit` reduces it to the round trip plus "both trees are
-line-split" (which is how the parser cuts text; that fact about `get_pattern` is not proved here). -/
+Not proved outright, but `fixpoint_of_roundtrip` proves that it follows from
+`C04_roundtrip_statement`. -/
 def C04_fixpoint_statement : Prop :=
   ∀ (str : String) (withJunk : Bool) (t : Resource Span) (errs : List PErr),
     parse str.toUTF8.data = .done (t, errs) →
@@ -157,6 +162,29 @@ theorem fixpoint_of_roundtrip_lineSplit (withJunk : Bool) (t t' : Resource Bytes
     (hout : Ser.serialize withJunk t = some out) (hls : LineSplit t) (hls' : LineSplit t')
     (hnorm : norm withJunk t' = norm withJunk t) : Ser.serialize withJunk t' = some out := by
   rw [Ser.serialize_congr_lineSplit withJunk t' t hls' hls hnorm, hout]
+
+/-- **The parser produces line-split trees.**  For every byte source, every text element of every
+pattern (values, attribute values, variant values, at any depth) in the tree returned by `parse` is
+non-empty, contains `\n` only as its last byte and contains no `\r\n` (partial-correctness
+induction along the eight mutually recursive parser functions, with an invariant on the placeholders
+of `get_pattern` including "the element `last_non_blank` points to survives `trim`"). -/
+theorem parse_lineSplit (s : Src) (t : Resource Span) (errs : List PErr) (h : parse s = .done (t, errs)) :
+    LineSplit (resolve s t) :=
+  Ser.parse_lineSplit s t errs h
+
+/-- **`fixpoint` is a corollary of `roundtrip`**: the second full statement follows from the first,
+because both the original and the re-parsed tree are parser output, hence line-split
+(`parse_lineSplit`), and line-split trees that agree under `norm` serialise identically
+(`serialize_congr_lineSplit`). -/
+theorem fixpoint_of_roundtrip (h : C04_roundtrip_statement) : C04_fixpoint_statement := by
+  intro str withJunk t errs hp out hout t' errs' hp'
+  obtain ⟨out2, ho2, t2, errs2, hp2, hnorm⟩ := h str withJunk t errs hp
+  rw [hout] at ho2
+  cases ho2
+  rw [hp'] at hp2
+  cases hp2
+  rw [Ser.serialize_congr_lineSplit withJunk _ _ (Ser.parse_lineSplit _ _ _ hp') (Ser.parse_lineSplit _ _ _ hp) hnorm,
+    hout]
 
 /-! ## T2 — inline expressions -/
 
